@@ -619,6 +619,17 @@ TOKEN_PATTERNS = [
 ]
 
 
+# Escape sequences recognised inside quoted strings (mirror of the emitter's escaping)
+_ESCAPE_SEQUENCE = re.compile(r"\\(.)", re.DOTALL)
+_ESCAPE_VALUES = {'"': '"', "\\": "\\", "n": "\n", "t": "\t"}
+
+
+def _unescape_match(match: "re.Match[str]") -> str:
+    """Replace one escape sequence; unknown escapes are kept verbatim."""
+    char = match.group(1)
+    return _ESCAPE_VALUES.get(char, "\\" + char)
+
+
 # GH#145: Pattern to detect malformed envelope markers
 # Matches ===...=== with any content between
 _INVALID_ENVELOPE_PATTERN = re.compile(r"===([^=\n]*)===")
@@ -889,11 +900,9 @@ def tokenize(content: str, lenient: bool = False) -> tuple[list[Token], list[Any
                     else:
                         # Single-quoted string: remove " from both ends
                         value = matched_text[1:-1]
-                    # Process escape sequences
-                    value = value.replace(r"\"", '"')
-                    value = value.replace(r"\\", "\\")
-                    value = value.replace(r"\n", "\n")
-                    value = value.replace(r"\t", "\t")
+                    # Process escape sequences in a single left-to-right pass so that an
+                    # escaped backslash followed by n/t/" is not unescaped a second time
+                    value = _ESCAPE_SEQUENCE.sub(_unescape_match, value)
                 elif token_type == TokenType.NUMBER:
                     # Convert to int or float, but preserve raw lexeme for fidelity (GH#66)
                     if "." in matched_text or "e" in matched_text.lower():
